@@ -68,6 +68,9 @@ def rust_struct(name, d, cf):
             if f["enc"] not in ("Le", "Text", "Struct"):
                 parts.append("encoding = " + ENC_RS[f["enc"]])
             attr = "#[zvt_bmp(%s)]" % ", ".join(parts) if parts else ""
+            if f["attr"] == "pos" and f["len"] == "Tlv" and f["enc"] not in ("Le", "Text", "Struct") and i % 2 == 0:
+                # the same layout spelled with the other attribute: zvt_tlv without a tag is a positional field with a TLV length
+                attr = "#[zvt_tlv(encoding = %s)]" % ENC_RS[f["enc"]]
         if attr:
             out.append("    " + attr)
         out.append("    pub f%d: %s," % (i + 1, ty))
